@@ -32,6 +32,22 @@ let emit_ s : M.emit_site =
   | [name; recv; pl] -> { M.em_name = str_ name; em_recv = str_ recv; em_payload = payload_ pl }
   | _ -> failwith "c02: bad emit"
 
+let rec init_ s : M.init =
+  match list s with
+  | [Atom "struct"; n] -> M.IStruct (str_ n)
+  | [Atom "call"; h] -> M.ICall (str_ h)
+  | [Atom "var"; w] -> M.IVar (str_ w)
+  | [Atom "ref"; i] -> M.IRef (init_ i)
+  | [Atom "other"] -> M.IOther
+  | _ -> failwith "c02: bad init"
+
+let stmt_ s : M.stmt =
+  match list s with
+  | [Atom "let"; v; i] -> M.SLet (str_ v, init_ i)
+  | [Atom "letty"; v; t] -> M.SLetTy (str_ v, ty_ t)
+  | [Atom "emit"; e] -> M.SEmit (emit_ e)
+  | _ -> failwith "c02: bad stmt"
+
 let field_ s : M.sfield =
   match list s with
   | [t; skip] -> { M.sf_ty = ty_ t; sf_skip = bool_ skip }
@@ -42,7 +58,7 @@ let item_ s : M.ritem =
   | [Atom "struct"; name; serde; named; fields] -> M.RStruct (str_ name, bool_ serde, bool_ named, list_ field_ fields)
   | [Atom "enum"; name; serde] -> M.REnum (str_ name, bool_ serde)
   | [Atom "fn"; name; is_cmd; params; ret; emits] ->
-      M.RFn (str_ name, bool_ is_cmd, list_ (pair_ str_ ty_) params, opt_ ty_ ret, list_ emit_ emits)
+      M.RFn (str_ name, bool_ is_cmd, list_ (pair_ str_ ty_) params, opt_ ty_ ret, list_ stmt_ emits)
   | [Atom "other"] -> M.ROther
   | _ -> failwith "c02: bad item"
 
